@@ -1,12 +1,17 @@
 (* C14: GOAWAY and graceful drain.
    Client side = the reader machine of model/ClientFrames.v (handleGoAway, NewStream refusal
-   while draining, loopy exit when the last stream of a draining transport is cleaned up).
+   while draining, loopy exit when the last stream of a draining transport is cleaned up) plus
+   http2Client.GracefulClose (local drain: state = draining without a GOAWAY; Close at once when
+   no stream is active).
    Server side, transcribed here from internal/transport/http2_server.go:
      Drain (drainEvent, heads-up goAway), outgoingGoAwayHandler (GOAWAY(2^31-1) + PING, then after
      the PING ack or 5 s GOAWAY(maxStreamID), state = draining; loopy exits when no stream is left,
      the connection is closed 1 s later), handlePing (ack of goAwayPing fires drainEvent),
      operateHeaders for a well-formed request with a legal id (accept / REFUSED_STREAM / dropped
-     when not reachable; see model/ServerHeaders.v), handleRSTStream / WriteStatus on streams.
+     when not reachable; see model/ServerHeaders.v), handleRSTStream / WriteStatus on streams,
+     Write + WriteStatus of a response that waits in loopy for the stream's send window
+     (finishStream: the stream stays in t.activeStreams until the END_STREAM trailers are written),
+     WINDOW_UPDATE (the queued DATA and trailers are flushed).
    Time is virtual milliseconds.  No proofs here. *)
 From Coq Require Import List ZArith Bool.
 From VLib Require Import Codec Machine.
@@ -20,7 +25,8 @@ Definition lenZ {A} (l : list A) : Z := Z.of_nat (length l).
 (* ================= server ================= *)
 Record gstate := mkg {
   g_max : Z;                   (* t.maxStreamID *)
-  g_active : list (Z * Z);     (* t.activeStreams: (id, 0 active / 1 read-done) *)
+  g_active : list (Z * Z);     (* t.activeStreams: (id, 0 active / 1 read-done / 3, 4 streamDone (was 0 / 1)
+                                  but loopy still holds DATA + trailers behind the send window) *)
   g_handled : Z;               (* handler invocations *)
   g_reach : bool;              (* t.state == reachable *)
   g_phase : Z;                 (* 0 no drain, 1 heads-up GOAWAY + PING sent, 2 final GOAWAY sent *)
@@ -28,31 +34,34 @@ Record gstate := mkg {
   g_loopy : bool;              (* loopy writer still running *)
   g_linger : Z;                (* loopy exited: time at which the connection is closed *)
   g_closed : bool;
-  g_now : Z }.
-Definition g0 := mkg 0 [] 0 true 0 0 true 0 false 0.
+  g_now : Z;
+  g_oiws : Z;                  (* loopy's oiws: the client's SETTINGS_INITIAL_WINDOW_SIZE *)
+  g_win : list (Z * Z) }.      (* per stream: WINDOW_UPDATE credit received minus bytes handed to loopy *)
+Definition ginit (oiws : Z) := mkg 0 [] 0 true 0 0 true 0 false 0 oiws [].
+Definition g0 := ginit 65535.
 
 Definition upd_active (g : gstate) (l : list (Z * Z)) : gstate :=
-  mkg (g_max g) l (g_handled g) (g_reach g) (g_phase g) (g_timer g) (g_loopy g) (g_linger g) (g_closed g) (g_now g).
+  mkg (g_max g) l (g_handled g) (g_reach g) (g_phase g) (g_timer g) (g_loopy g) (g_linger g) (g_closed g) (g_now g) (g_oiws g) (g_win g).
 Definition set_now (g : gstate) (t : Z) : gstate :=
-  mkg (g_max g) (g_active g) (g_handled g) (g_reach g) (g_phase g) (g_timer g) (g_loopy g) (g_linger g) (g_closed g) t.
+  mkg (g_max g) (g_active g) (g_handled g) (g_reach g) (g_phase g) (g_timer g) (g_loopy g) (g_linger g) (g_closed g) t (g_oiws g) (g_win g).
 Definition is_nil {A} (l : list A) : bool := match l with [] => true | _ => false end.
 
 (* cleanupStreamHandler / outgoingGoAwayHandler: a draining loopy with no stream left returns;
    the connection is closed one second later *)
 Definition loopy_check (g : gstate) : gstate :=
   if g_loopy g && (g_phase g =? 2) && is_nil (g_active g)
-  then mkg (g_max g) (g_active g) (g_handled g) (g_reach g) (g_phase g) (g_timer g) false (g_now g + 1000) (g_closed g) (g_now g)
+  then mkg (g_max g) (g_active g) (g_handled g) (g_reach g) (g_phase g) (g_timer g) false (g_now g + 1000) (g_closed g) (g_now g) (g_oiws g) (g_win g)
   else g.
 
 (* the second goAway item: state = draining, GOAWAY(maxStreamID, NO_ERROR) *)
 Definition final_goaway (g : gstate) : gstate * list Z :=
   if g_closed g || negb (g_loopy g) || negb (g_phase g =? 1) then (g, [])
   else
-    (loopy_check (mkg (g_max g) (g_active g) (g_handled g) false 2 (g_timer g) true (g_linger g) false (g_now g)),
+    (loopy_check (mkg (g_max g) (g_active g) (g_handled g) false 2 (g_timer g) true (g_linger g) false (g_now g) (g_oiws g) (g_win g)),
      [7; g_max g; 0; 0]).
 
 Definition close_now (g : gstate) : gstate * list Z :=
-  (mkg (g_max g) [] (g_handled g) (g_reach g) (g_phase g) (g_timer g) false (g_linger g) true (g_now g), [8; 0; 0; 0]).
+  (mkg (g_max g) [] (g_handled g) (g_reach g) (g_phase g) (g_timer g) false (g_linger g) true (g_now g) (g_oiws g) (g_win g), [8; 0; 0; 0]).
 
 Fixpoint find_stream (sid : Z) (l : list (Z * Z)) : option Z :=
   match l with
@@ -60,6 +69,25 @@ Fixpoint find_stream (sid : Z) (l : list (Z * Z)) : option Z :=
   | (i, s) :: r => if i =? sid then Some s else find_stream sid r
   end.
 Definition del_stream (sid : Z) (l : list (Z * Z)) : list (Z * Z) := filter (fun e => negb (fst e =? sid)) l.
+Fixpoint set_stream (sid s : Z) (l : list (Z * Z)) : list (Z * Z) :=
+  match l with
+  | [] => []
+  | (i, s0) :: r => if i =? sid then (i, s) :: r else (i, s0) :: set_stream sid s r
+  end.
+
+(* stream states 3 / 4: streamDone, the response (DATA + END_STREAM trailers) waits in loopy *)
+Definition is_done (s : Z) : bool := (s =? 3) || (s =? 4).
+Definition fin_blocked (s : Z) : Z := if s =? 0 then 3 else 4.
+(* the stream's send window: oiws - bytesOutStanding *)
+Definition window (g : gstate) (sid : Z) : Z :=
+  g_oiws g + match find_stream sid (g_win g) with Some d => d | None => 0 end.
+Definition with_win (g : gstate) (sid d : Z) : gstate :=
+  mkg (g_max g) (g_active g) (g_handled g) (g_reach g) (g_phase g) (g_timer g) (g_loopy g) (g_linger g) (g_closed g) (g_now g)
+      (g_oiws g) ((sid, d) :: del_stream sid (g_win g)).
+(* END_STREAM trailers of stream sid (grpc-status 0), then RST_STREAM(NO_ERROR) when the client
+   has not half-closed *)
+Definition ev_trailers (sid http : Z) (rst : bool) : list Z :=
+  [1; sid; http; 0] ++ (if rst then [3; sid; 0; 0] else []).
 
 Inductive sop :=
 | SHeaders (sid : Z) (ended : bool)
@@ -67,7 +95,32 @@ Inductive sop :=
 | SFinish (sid : Z)
 | SDrain
 | SAck
-| SSleep (ms : Z).
+| SSleep (ms : Z)
+| SWriteFinish (sid n : Z)
+| SWindow (sid inc : Z).
+
+(* the application finishes stream sid: WriteStatus(OK), after a Write of a 5 + n byte message
+   when wr = Some n.  The stream leaves t.activeStreams when loopy writes the END_STREAM trailers
+   (cleanupStream.onWrite), which it does only after the DATA queued before them; loopy runs
+   whenever a stream is active (proved) *)
+Definition finish (g : gstate) (sid : Z) (wr : option Z) : gstate * list Z :=
+  match find_stream sid (g_active g) with
+  | None => (g, [])
+  | Some s =>
+    if is_done s then (g, [])          (* streamDone: Write and WriteStatus return at once *)
+    else
+      let gone := loopy_check (upd_active g (del_stream sid (g_active g))) in
+      match wr with
+      | None => (gone, ev_trailers sid 200 (s =? 0))
+      | Some n =>
+        (* HEADERS (no END_STREAM) at once; DATA as far as the send window allows; the trailers
+           only after the last byte of DATA *)
+        let w := window g sid - (5 + n) in
+        if 0 <=? w then (gone, [1; sid; 1200; -1] ++ ev_trailers sid (-1) (s =? 0))
+        else (with_win (upd_active g (set_stream sid (fin_blocked s) (g_active g))) sid (w - g_oiws g),
+              [1; sid; 1200; -1])
+      end
+  end.
 
 (* what the handler of the scripted request reports: no deadline, 2 metadata keys/values
    (:authority, content-type), method "/s/m", authority "a.b" *)
@@ -80,23 +133,29 @@ Definition sstep (maxs : Z) (g : gstate) (o : sop) : gstate * list Z :=
   | SHeaders sid ended =>
     (* the id is legal (checked on the op list): maxStreamID = sid; then the state and
        MaxConcurrentStreams checks of operateHeaders *)
-    let g1 := mkg sid (g_active g) (g_handled g) (g_reach g) (g_phase g) (g_timer g) (g_loopy g) (g_linger g) false (g_now g) in
+    let g1 := mkg sid (g_active g) (g_handled g) (g_reach g) (g_phase g) (g_timer g) (g_loopy g) (g_linger g) false (g_now g) (g_oiws g) (g_win g) in
     if negb (g_reach g) then (g1, [])
     else if maxs <=? lenZ (g_active g) then (g1, [3; sid; 7; 0])
-    else (mkg sid (g_active g ++ [(sid, b2z ended)]) (g_handled g + 1) true (g_phase g) (g_timer g) (g_loopy g) (g_linger g) false (g_now g),
+    else (mkg sid (g_active g ++ [(sid, b2z ended)]) (g_handled g + 1) true (g_phase g) (g_timer g) (g_loopy g) (g_linger g) false (g_now g) (g_oiws g) (g_win g),
           handler_event sid ended)
   | SRst sid => (loopy_check (upd_active g (del_stream sid (g_active g))), [])
-  | SFinish sid =>
+  | SFinish sid => finish g sid None
+  | SWriteFinish sid n => finish g sid (Some n)
+  | SWindow sid inc =>
+    (* WINDOW_UPDATE(sid, inc > 0): loopy adds the credit; a finished stream whose queued DATA now
+       fits is flushed: DATA, END_STREAM trailers (+ RST_STREAM), and only now it leaves
+       t.activeStreams (and a draining loopy with no stream left returns) *)
     match find_stream sid (g_active g) with
     | None => (g, [])
     | Some s =>
-      (* loopy runs whenever a stream is active (proved), so the trailers are written *)
-      (loopy_check (upd_active g (del_stream sid (g_active g))),
-       [1; sid; 200; 0] ++ (if s =? 0 then [3; sid; 0; 0] else []))
+      let w := window g sid + inc in
+      if is_done s && (0 <=? w)
+      then (loopy_check (upd_active g (del_stream sid (g_active g))), ev_trailers sid (-1) (s =? 3))
+      else (with_win g sid (w - g_oiws g), [])
     end
   | SDrain =>
     if negb (g_phase g =? 0) || negb (g_loopy g) then (g, [])
-    else (mkg (g_max g) (g_active g) (g_handled g) (g_reach g) 1 (g_now g + 5000) true (g_linger g) false (g_now g),
+    else (mkg (g_max g) (g_active g) (g_handled g) (g_reach g) 1 (g_now g + 5000) true (g_linger g) false (g_now g) (g_oiws g) (g_win g),
           [7; 2147483647; 0; 0; 6; 0; 0; 0])
   | SAck => final_goaway g
   | SSleep ms =>
@@ -127,6 +186,10 @@ Definition decode_sop (last : Z) (w : word) : option (sop * Z) :=
   | [7] => Some (SDrain, last)
   | [8] => Some (SAck, last)
   | [12; ms] => if (1 <=? ms) && (ms <=? 60000) then Some (SSleep ms, last) else None
+  | [9; sid; n] => if (1 <=? sid) && (sid <? 2147483648) && (0 <=? n) && (n <=? 1000)
+                   then Some (SWriteFinish sid n, last) else None
+  | [10; sid; inc] => if (1 <=? sid) && (sid <? 2147483648) && (1 <=? inc) && (inc <=? 2147483647)
+                      then Some (SWindow sid inc, last) else None
   | _ => None
   end.
 Fixpoint decode_sops (last : Z) (ws : list word) : option (list sop) :=
@@ -141,17 +204,70 @@ Fixpoint decode_sops (last : Z) (ws : list word) : option (list sop) :=
               end
   end.
 
-Definition run (cfg : word) (ops : list word) : option (list word) :=
+(* ================= client: the C11 reader machine + GracefulClose ================= *)
+Inductive cop :=
+| CO (o : CF.op)
+| CGraceful.            (* http2Client.GracefulClose *)
+
+(* GracefulClose: only from reachable; state = draining, loopy is told to drain (incomingGoAway);
+   with no active stream the transport is closed at once.  t.goAway stays open and
+   t.prevGoAwayID stays 0: no GOAWAY has been received *)
+Definition graceful (c : CF.conn) : CF.conn * list CF.ev4 :=
+  if CF.k_mode c =? 0 then
+    if CF.any_active c
+    then (CF.mkconn (CF.k_streams c) (CF.k_next c) 1 (CF.k_goaway c) (CF.k_prev c) (CF.k_now c), [])
+    else CF.close_conn c
+  else (c, []).
+(* NewStream on a transport that drains locally while t.goAway is still open: checkForStreamQuota
+   refuses (state == draining) and NewStream waits for a GOAWAY, the end of the transport or its
+   context; the driver cancels the context at the quiescent point: event (0, -2, 0, 0) *)
+Definition new_waits (c : CF.conn) : bool := (CF.k_mode c =? 1) && negb (CF.k_goaway c).
+Definition cstep (c : CF.conn) (o : cop) : CF.conn * list CF.ev4 :=
+  match o with
+  | CO (CF.ONew dl) => if new_waits c then (c, [(0, -2, 0, 0)]) else CF.step c (CF.ONew dl)
+  | CO o => CF.step c o
+  | CGraceful => graceful c
+  end.
+Fixpoint crun_ops (c : CF.conn) (ops : list cop) : list (list CF.ev4) :=
+  match ops with
+  | [] => [CF.final c]
+  | o :: r => let '(c', ev) := cstep c o in ev :: crun_ops c' r
+  end.
+Definition decode_cop (w : word) : option cop :=
+  match w with
+  | [30] => Some CGraceful
+  | _ => match CF.decode_op w with Some o => Some (CO o) | None => None end
+  end.
+Fixpoint decode_cops (ws : list word) : option (list cop) :=
+  match ws with
+  | [] => Some []
+  | w :: r => match decode_cop w, decode_cops r with
+              | Some o, Some os => Some (o :: os)
+              | _, _ => None
+              end
+  end.
+
+(* cfg [0]: client; [1; maxStreams] / [1; maxStreams; zw]: server (zw = 1: the client advertises
+   SETTINGS_INITIAL_WINDOW_SIZE = 0) *)
+Definition decode_scfg (cfg : word) : option (Z * Z) :=
   match cfg with
-  | [0] => CF.run [] ops
-  | [1; maxs] => if (0 <=? maxs) && (maxs <=? max_u32) then
-                   match decode_sops 0 ops with
-                   | Some os => Some (srun maxs g0 os)
-                   | None => None
-                   end
-                 else None
+  | [1; maxs] => if (0 <=? maxs) && (maxs <=? max_u32) then Some (maxs, 65535) else None
+  | [1; maxs; zw] => if (0 <=? maxs) && (maxs <=? max_u32) && ((zw =? 0) || (zw =? 1))
+                     then Some (maxs, if zw =? 1 then 0 else 65535) else None
   | _ => None
   end.
+Definition is_client (cfg : word) : bool := match cfg with [0] => true | _ => false end.
+Definition run (cfg : word) (ops : list word) : option (list word) :=
+  if is_client cfg then
+    match decode_cops ops with
+    | Some os => Some (map CF.flatten (crun_ops CF.conn0 os))
+    | None => None
+    end
+  else
+    match decode_scfg cfg, decode_sops 0 ops with
+    | Some (maxs, oiws), Some os => Some (srun maxs (ginit oiws) os)
+    | _, _ => None
+    end.
 
 (* ================= the property on observations ================= *)
 (* The clauses are evaluated on the implementation's observations; the classification of an
@@ -167,12 +283,14 @@ Definition goaway_larger (c : CF.conn) (id : Z) : bool := CF.k_goaway c && (CF.k
    1 after a GOAWAY has been accepted every NewStream fails
    2 a GOAWAY(N) terminates only streams with id > N, and those end Unavailable + unprocessed
    6 a GOAWAY with a non-zero even last-stream-id is a connection error (the connection is closed)
-   7 a later GOAWAY with a larger id is a connection error (the connection is closed) *)
-Definition cclause (c : CF.conn) (o : CF.op) (ev : list CF.ev4) : list (Z * Z * bool) :=
+   7 a later GOAWAY with a larger id is a connection error (the connection is closed); "later" =
+     after a GOAWAY that was accepted, whether the transport was reachable or already draining
+     locally (GracefulClose) when that one arrived *)
+Definition cclause (c : CF.conn) (o : cop) (ev : list CF.ev4) : list (Z * Z * bool) :=
   match o with
-  | CF.ONew _ =>
+  | CO (CF.ONew _) =>
     [ (1, 0, negb (CF.k_goaway c) || forallb (fun e => negb (CF.tag e =? 0) || (CF.esid e =? -1)) ev) ]
-  | CF.OGoAway id code =>
+  | CO (CF.OGoAway id code) =>
     if CF.k_mode c =? 2 then []
     else if goaway_even id then [ (6, id, has_eof ev) ]
     else if goaway_larger c id then [ (7, id, has_eof ev) ]
@@ -180,9 +298,9 @@ Definition cclause (c : CF.conn) (o : CF.op) (ev : list CF.ev4) : list (Z * Z * 
                                      ((id <? CF.esid e) && (CF.ecode e =? 14) && (snd e =? 1))) ev) ]
   | _ => []
   end.
-Fixpoint cclauses (c : CF.conn) (ops : list CF.op) (obs : list (list CF.ev4)) : list (Z * Z * bool) :=
+Fixpoint cclauses (c : CF.conn) (ops : list cop) (obs : list (list CF.ev4)) : list (Z * Z * bool) :=
   match ops, obs with
-  | o :: r, ev :: r' => cclause c o ev ++ cclauses (fst (CF.step c o)) r r'
+  | o :: r, ev :: r' => cclause c o ev ++ cclauses (fst (cstep c o)) r r'
   | [], [_] => []
   | _, _ => [(0, 0, false)]
   end.
@@ -208,15 +326,39 @@ Fixpoint has_close (fuel : nat) (ev : list Z) : bool :=
            | _ => false
            end
   end.
+(* END_STREAM trailers with grpc-status 0 for stream sid among the events *)
+Fixpoint has_trailers (fuel : nat) (sid : Z) (ev : list Z) : bool :=
+  match fuel with
+  | O => false
+  | S f => match ev with
+           | t :: a :: b :: c :: r =>
+             ((t =? 1) && (a =? sid) && (b <? 1000) && (c =? 0)) || (if t =? 9 then false else has_trailers f sid r)
+           | _ => false
+           end
+  end.
 Definition list_max (l : list Z) : Z := fold_right Z.max 0 l.
+(* WINDOW_UPDATE(sid, inc) that makes the queued response of a finished stream fit *)
+Definition flush_due (g : gstate) (o : sop) : option Z :=
+  if g_closed g then None else
+  match o with
+  | SWindow sid inc =>
+    match find_stream sid (g_active g) with
+    | Some s => if is_done s && (0 <=? window g sid + inc) then Some sid else None
+    | None => None
+    end
+  | _ => None
+  end.
 
 (* clause ids, server (acc = ids the implementation handed to a handler so far):
    5 the final GOAWAY's id is not below any stream handed to a handler
    8 the final GOAWAY's id IS the highest stream id handed to a handler (literal reading;
      see C14_final_id_refuted: a refused or dropped stream id is counted too)
    9 no handler is invoked after the final GOAWAY
-   10 the connection is closed only when no accepted stream is still active *)
-Definition sclause (g : gstate) (acc : list Z) (o : sop) (ob : word) : list (Z * Z * bool) * list Z :=
+   10 the connection is closed only when no accepted stream is still active (a stream whose
+      handler has returned but whose response and status wait for flow-control window is active)
+   11 a finished stream whose response waited for window gets the rest of the response and its
+      status (END_STREAM trailers) as soon as the client grants the window, draining or not *)
+Definition sclause_base (g : gstate) (acc : list Z) (o : sop) (ob : word) : list (Z * Z * bool) * list Z :=
   match ob with
   | n :: h :: m :: ev =>
     let invoked := g_handled g <? h in
@@ -233,6 +375,13 @@ Definition sclause (g : gstate) (acc : list Z) (o : sop) (ob : word) : list (Z *
      end, acc')
   | _ => ([ (0, 0, false) ], acc)
   end.
+Definition clause11 (g : gstate) (o : sop) (ob : word) : list (Z * Z * bool) :=
+  match flush_due g o with
+  | Some sid => [ (11, sid, has_trailers (length ob) sid (skipn 3 ob)) ]
+  | None => []
+  end.
+Definition sclause (g : gstate) (acc : list Z) (o : sop) (ob : word) : list (Z * Z * bool) * list Z :=
+  (fst (sclause_base g acc o ob) ++ clause11 g o ob, snd (sclause_base g acc o ob)).
 Fixpoint sclauses (maxs : Z) (g : gstate) (acc : list Z) (ops : list sop) (obs : list word) : list (Z * Z * bool) :=
   match ops, obs with
   | o :: r, ob :: r' => let '(cl, acc') := sclause g acc o ob in cl ++ sclauses maxs (fst (sstep maxs g o)) acc' r r'
@@ -241,17 +390,16 @@ Fixpoint sclauses (maxs : Z) (g : gstate) (acc : list Z) (ops : list sop) (obs :
   end.
 
 Definition clauses (cfg : word) (ops obs : list word) : list (Z * Z * bool) :=
-  match cfg with
-  | [0] => match CF.decode_ops ops with
-           | Some os => cclauses CF.conn0 os (map CF.evs obs)
-           | None => [(0, 0, false)]
-           end
-  | [1; maxs] => match decode_sops 0 ops with
-                 | Some os => sclauses maxs g0 [] os obs
-                 | None => [(0, 0, false)]
-                 end
-  | _ => [(0, 0, false)]
-  end.
+  if is_client cfg then
+    match decode_cops ops with
+    | Some os => cclauses CF.conn0 os (map CF.evs obs)
+    | None => [(0, 0, false)]
+    end
+  else
+    match decode_scfg cfg, decode_sops 0 ops with
+    | Some (maxs, oiws), Some os => sclauses maxs (ginit oiws) [] os obs
+    | _, _ => [(0, 0, false)]
+    end.
 
 (* clause 8 is the literal reading that the code does not satisfy *)
 Definition finding_clause (c : Z) : bool := c =? 8.
